@@ -10,7 +10,7 @@
       (b) the object root lists no declaration file twice (trees are association lists: a second, shadowed
           binding of the same path is an artefact of the representation - read_dir never yields a name twice).
     Both are needed by the model: see [C05_any_type_needs_plain_versions] and
-    [C04_any_type_needs_nodup_decls] in Proofs/CommitUpgradeRun.v. *)
+    [C04_any_type_needs_nodup_decls] in Proofs/CommitUpgradeWitness.v. *)
 From Coq Require Import List NArith Ascii Bool.
 From Rocfl Require Import Base.Bytes Model.FsOps Model.FsTree Model.Commit.
 Import ListNotations.
